@@ -670,8 +670,11 @@ pub fn c20_child(case: u32, order: u32, threads: usize, main_exit: bool) {
         sh.wcell.store(Weak::null(), SeqCst, &g);
     }
     let expected = CREATED.load(SeqCst) + expected_extra;
+    // bounded progress in rounds: a collection pops at most 16 bags, and a destructor that runs after
+    // the thread's handle is gone produces one single-element bag per released object
+    let bound = 400 + expected / 4;
     let mut rounds = 0;
-    while T_DROPS.load(SeqCst) < expected && rounds < 400 {
+    while T_DROPS.load(SeqCst) < expected && rounds < bound {
         churn(1);
         rounds += 1;
     }
@@ -742,7 +745,7 @@ pub fn c20(thorough: bool, shard: u64, nshards: u64) -> ProcOut {
                         report(
                             "C20",
                             &format!("C20|garbage-of-dead-thread-not-reclaimed|call={}|{}", C20_CASES[case as usize], b),
-                            format!("{}: {} of {} objects destructed after 400 rounds on the surviving thread", ctx, drops, exp),
+                            format!("{}: {} of {} objects destructed after 400+n/4 rounds on the surviving thread", ctx, drops, exp),
                         );
                     }
                     by.inc("ok");
